@@ -31,7 +31,7 @@ import (
 	"verif/harness/kit"
 )
 
-const c40Rule = "fault matrix = application {ICS-20 over IBC v1, ICS-20 over IBC v2, GMP over IBC v2} x callback type {send, ack of a success, ack of an error (refund), timeout (refund), receive} x contract behaviour {ok, consume exactly the limit, error, panic, burn far beyond the limit, limit+1, out of gas swallowed into an error, out of gas swallowed into success} x user gas limit {small, absent, \"0\", = max, max+1, 2^64-1} x relayer/user transaction gas {generous, tight: remaining < commit limit at the callback, then retried at commit-1 / commit / commit+1 and finally with generous gas} x chain maximum {1,000,000 as wired in the callbacks simapp, 300,000 (thorough: also 60,000) through rebuilt stacks}; every cell is a real packet life cycle driven by signed transactions with a chosen gas limit; the oracles read the contract keeper's gas meter, the transaction's gas meter at the contract's start and at the stack's return, the transaction result and the exact state diff. " +
+const c40Rule = "fault matrix = application {ICS-20 over IBC v1, ICS-20 over IBC v2, GMP over IBC v2, asynchronously acknowledging stub over IBC v2} x callback type {send, ack of a success, ack of an error (refund), timeout (refund), receive, asynchronous write-acknowledgement (stub only)} x contract behaviour {ok, consume exactly the limit, error, panic, burn far beyond the limit, limit+1, out of gas swallowed into an error, out of gas swallowed into success} x user gas limit {small, absent, \"0\", = max, max+1, 2^64-1} x relayer/user transaction gas {generous, tight: remaining < commit limit at the callback, then retried at commit-1 / commit / commit+1 and finally with generous gas} x chain maximum {1,000,000 as wired in the callbacks simapp, 300,000 (thorough: also 60,000) through rebuilt stacks}; every cell is a real packet life cycle driven by signed transactions with a chosen gas limit; the oracles read the contract keeper's gas meter, the transaction's gas meter at the contract's start and at the stack's return, the transaction result and the exact state diff. " +
 	"Plus boundary-biased (remaining, user, max) triples through GetCallbackData / GetSourceCallbackData / GetDestCallbackData against cap(user,max) and min(remaining, cap). distinct = matrix cell x observed regime (retryable / not, aborted / isolated / persisted)"
 
 // capGas is the commit limit of the statement: the user-requested limit capped at the chain maximum (0 or absent or above max ⇒ max).
@@ -54,10 +54,10 @@ func TestC40(t *testing.T) {
 	defer c.Finish()
 	c.Assume("callbacks simapp of the repository (modules/apps/callbacks/testing/simapp) with its mock ContractKeeper's function fields replaced by a scripted contract; for the non-default maximum the stacks are rebuilt with the public middleware constructors")
 	c.Assume("the SDK's transaction atomicity and gas metering of the ante handler are the trusted base; gas observations are taken from the same gas meters the code under test uses, read by the harness's taps")
-	for k, v := range map[string]int64{"pure_triples": 2000, "pure_via_context": 280, "cells": 340, "gas_bound_checks": 670, "limit_equals_min_remaining_cap": 670,
+	for k, v := range map[string]int64{"pure_triples": 2000, "pure_via_context": 280, "cells": 330, "gas_bound_checks": 670, "limit_equals_min_remaining_cap": 670,
 		"limit_capped_by_remaining": 200, "src_failure_isolated": 115, "src_retryable_oog_aborted": 60, "retry_after_abort_succeeded": 40, "src_nonretryable_oog_isolated": 70,
 		"dest_failure_error_ack_no_app_change": 80, "ok_callback_persisted": 85, "send_failure_rejected": 50, "boundary_remaining_eq_commit": 30,
-		"obs_v1_ack": 80, "obs_v2_ack": 80, "obs_gmp_ack": 14, "obs_v1_timeout": 28, "obs_v2_timeout": 28, "obs_v1_recv": 70, "obs_v2_recv": 70, "obs_gmp_recv": 35, "obs_v1_send": 110, "obs_v2_send": 110} {
+		"obs_v1_ack": 80, "obs_v2_ack": 80, "obs_gmp_ack": 14, "obs_v1_timeout": 28, "obs_v2_timeout": 28, "obs_v1_recv": 70, "obs_v2_recv": 70, "obs_gmp_recv": 35, "obs_async_wack": 60, "async_failure_isolated": 20, "async_retryable_oog_aborted": 15, "obs_v1_send": 110, "obs_v2_send": 110} {
 		c.Floor(k, v)
 	}
 	c.Exhaustive = true
@@ -173,16 +173,16 @@ func c40Pure(c *kit.Check, t *testing.T) {
 		}
 		class := fmt.Sprintf("pure|%s|%s|%s|u%sm|r%sc", src, key, form, relUM, relRC)
 		if !isCb || err != nil {
-			c.Violate("C40|callback-data-rejected|"+src, fmt.Sprintf("GetCallbackData(rem=%d, user=%d (%s), max=%d) = isCb %v, err %v for a well-formed callback memo", rem, user, form, max, isCb, err), nil)
+			c40Cap.violate(c, "C40|callback-data-rejected|"+src, fmt.Sprintf("GetCallbackData(rem=%d, user=%d (%s), max=%d) = isCb %v, err %v for a well-formed callback memo", rem, user, form, max, isCb, err), nil)
 			c.Eval(class)
 			continue
 		}
 		wantExec := minU(rem, cp)
 		if data.CommitGasLimit != cp {
-			c.Violate("C40|commit-limit-not-capped-user-limit|u"+relUM+"m", fmt.Sprintf("commit gas limit %d, expected cap(user=%d, max=%d) = %d (remaining %d, %s)", data.CommitGasLimit, user, max, cp, rem, src), map[string]any{"remaining": rem, "user": user, "max": max})
+			c40Cap.violate(c, "C40|commit-limit-not-capped-user-limit|u"+relUM+"m", fmt.Sprintf("commit gas limit %d, expected cap(user=%d, max=%d) = %d (remaining %d, %s)", data.CommitGasLimit, user, max, cp, rem, src), map[string]any{"remaining": rem, "user": user, "max": max})
 		}
 		if data.ExecutionGasLimit != wantExec {
-			c.Violate("C40|execution-limit-not-min-remaining-cap|u"+relUM+"m|r"+relRC+"c", fmt.Sprintf("execution gas limit %d, expected min(remaining=%d, cap(user=%d, max=%d)=%d) = %d (%s)", data.ExecutionGasLimit, rem, user, max, cp, wantExec, src), map[string]any{"remaining": rem, "user": user, "max": max})
+			c40Cap.violate(c, "C40|execution-limit-not-min-remaining-cap|u"+relUM+"m|r"+relRC+"c", fmt.Sprintf("execution gas limit %d, expected min(remaining=%d, cap(user=%d, max=%d)=%d) = %d (%s)", data.ExecutionGasLimit, rem, user, max, cp, wantExec, src), map[string]any{"remaining": rem, "user": user, "max": max})
 		}
 		if i < 3 {
 			c.Sample(map[string]any{"pure": fmt.Sprintf("rem=%d user=%d(%s) max=%d -> exec=%d commit=%d", rem, user, form, max, data.ExecutionGasLimit, data.CommitGasLimit)})
@@ -244,11 +244,11 @@ func c40Pure(c *kit.Check, t *testing.T) {
 			c.Inc("pure_via_context")
 			relRC := cmp3(remAfter, cp)
 			if !isCb || gerr != nil {
-				c.Violate("C40|callback-data-rejected|via-context", fmt.Sprintf("%s callback data rejected: isCb %v err %v", key, isCb, gerr), nil)
+				c40Cap.violate(c, "C40|callback-data-rejected|via-context", fmt.Sprintf("%s callback data rejected: isCb %v err %v", key, isCb, gerr), nil)
 				continue
 			}
 			if cb.CommitGasLimit != cp || cb.ExecutionGasLimit != minU(remAfter, cp) {
-				c.Violate("C40|limits-via-context|r"+relRC+"c", fmt.Sprintf("%s: exec %d commit %d, expected min(remaining %d, cap(user %d, max %d) = %d)", key, cb.ExecutionGasLimit, cb.CommitGasLimit, remAfter, user, max, cp), nil)
+				c40Cap.violate(c, "C40|limits-via-context|r"+relRC+"c", fmt.Sprintf("%s: exec %d commit %d, expected min(remaining %d, cap(user %d, max %d) = %d)", key, cb.ExecutionGasLimit, cb.CommitGasLimit, remAfter, user, max, cp), nil)
 			}
 			c.Eval(fmt.Sprintf("ctx|%s|%s|u%sm|r%sc", key, form, cmp3(user, max), relRC))
 		}
@@ -256,6 +256,20 @@ func c40Pure(c *kit.Check, t *testing.T) {
 	if err != nil {
 		c.Inconcl("pure via context: " + err.Error())
 	}
+}
+
+// sigCap keeps one class of violation from filling the evidence: at most 3 witnesses per signature are recorded, the rest counted.
+type sigCap map[string]int
+
+var c40Cap = sigCap{}
+
+func (k sigCap) violate(c *kit.Check, sig, what string, wit any) {
+	k[sig]++
+	if k[sig] > 3 {
+		c.Inc("violations_of_a_recorded_class_not_repeated")
+		return
+	}
+	c.Violate(sig, what, wit)
 }
 
 func cmp3(a, b uint64) string {
@@ -288,6 +302,8 @@ func (cl cell) cbType() string {
 	switch cl.typ {
 	case "ackerr":
 		return "ack"
+	case "wack":
+		return "recv"
 	}
 	return cl.typ
 }
@@ -364,7 +380,7 @@ func (m *c40) usersFor(first bool, typ string) []string {
 	case first:
 		return []string{"small", "absent", "over"}
 	case wide:
-		return []string{"small", "over", "maxu64"}
+		return []string{"small", "maxu64"}
 	}
 	return []string{"small"}
 }
@@ -399,6 +415,14 @@ func (m *c40) runMatrix(first bool) {
 			}
 		}
 	}
+	// asynchronous write-acknowledgement (destination callback run from the application's later WriteAcknowledgement)
+	for _, rel := range []string{"generous", "tight"} {
+		for _, u := range m.usersFor(first, "recv") {
+			for _, beh := range allBehs {
+				cells = append(cells, cell{"async", "wack", beh, u, rel})
+			}
+		}
+	}
 	for i, cl := range cells {
 		id := cl.id(m.max)
 		m.c.SetCase(id)
@@ -408,7 +432,13 @@ func (m *c40) runMatrix(first bool) {
 				continue
 			}
 		}
-		err := kit.Try(func() { m.runCell(cl) })
+		err := kit.Try(func() {
+			if cl.app == "async" {
+				m.runAsyncCell(cl)
+			} else {
+				m.runCell(cl)
+			}
+		})
 		if err != nil {
 			m.c.Inconcl(id + ": " + err.Error())
 		}
@@ -647,14 +677,14 @@ func (m *c40) boundAll(cr *cellRun, o *CBOutcome) {
 		sig := fmt.Sprintf("%s|%s|user=%s", cr.cl.app, ob.Type, cr.cl.user)
 		wit := map[string]any{"cell": cr.cl.id(m.max), "limit_seen": ob.LimitSeen, "tx_gas_remaining_at_contract_start": ob.OuterRemainAtEntry, "tx_gas_remaining_at_stack_entry": ob.StackRemainAtEntry, "user_limit": cr.user, "max": m.max, "cap": cp, "tx_gas_wanted": o.GasWanted}
 		if ob.LimitSeen > bound {
-			m.c.Violate("C40|contract-gas-limit-above-bound|"+sig, fmt.Sprintf("%s: the contract was given a gas limit of %d, more than min(remaining %d, cap(user %d, max %d) = %d)", cr.cl.id(m.max), ob.LimitSeen, ob.OuterRemainAtEntry, cr.user, m.max, cp), wit)
+			c40Cap.violate(m.c, "C40|contract-gas-limit-above-bound|"+sig, fmt.Sprintf("%s: the contract was given a gas limit of %d, more than min(remaining %d, cap(user %d, max %d) = %d)", cr.cl.id(m.max), ob.LimitSeen, ob.OuterRemainAtEntry, cr.user, m.max, cp), wit)
 		} else if ob.LimitSeen == bound {
 			m.c.Inc("limit_equals_min_remaining_cap")
 		} else {
 			m.c.Inc("limit_below_min_remaining_cap")
 		}
 		if ob.LimitSeen > ob.StackRemainAtEntry {
-			m.c.Violate("C40|contract-gas-limit-above-remaining|"+sig, fmt.Sprintf("%s: contract gas limit %d exceeds the gas remaining when the stack was entered %d", cr.cl.id(m.max), ob.LimitSeen, ob.StackRemainAtEntry), wit)
+			c40Cap.violate(m.c, "C40|contract-gas-limit-above-remaining|"+sig, fmt.Sprintf("%s: contract gas limit %d exceeds the gas remaining when the stack was entered %d", cr.cl.id(m.max), ob.LimitSeen, ob.StackRemainAtEntry), wit)
 		}
 		if ob.OuterRemainAtEntry < cp {
 			m.c.Inc("limit_capped_by_remaining")
@@ -663,14 +693,14 @@ func (m *c40) boundAll(cr *cellRun, o *CBOutcome) {
 			charged := ob.OuterConsumedAfter - ob.OuterConsumedAtEntry
 			wit["charged"] = charged
 			if charged > bound {
-				m.c.Violate("C40|callback-charged-above-bound|"+sig, fmt.Sprintf("%s: the transaction was charged %d gas for the callback, more than min(remaining %d, cap %d)", cr.cl.id(m.max), charged, ob.OuterRemainAtEntry, cp), wit)
+				c40Cap.violate(m.c, "C40|callback-charged-above-bound|"+sig, fmt.Sprintf("%s: the transaction was charged %d gas for the callback, more than min(remaining %d, cap %d)", cr.cl.id(m.max), charged, ob.OuterRemainAtEntry, cp), wit)
 			}
 			if ob.PastLimit && charged == ob.LimitSeen {
 				m.c.Inc("out_of_gas_charged_exactly_limit")
 			}
 		}
 		if o.GasUsed > o.GasWanted && o.OK() {
-			m.c.Violate("C40|tx-gas-used-above-wanted|"+sig, fmt.Sprintf("successful tx used %d gas of %d", o.GasUsed, o.GasWanted), wit)
+			c40Cap.violate(m.c, "C40|tx-gas-used-above-wanted|"+sig, fmt.Sprintf("successful tx used %d gas of %d", o.GasUsed, o.GasWanted), wit)
 		}
 	}
 }
@@ -748,26 +778,26 @@ func (m *c40) judgeSource(cr *cellRun, lc *lifecycle, o *CBOutcome, refund bool,
 	case ob.PastLimit && retryable:
 		// the relayer supplied less than the committed limit: the whole transaction must be aborted so that it can be retried
 		if o.OK() {
-			m.c.Violate("C40|retryable-out-of-gas-not-aborted|"+sigT, fmt.Sprintf("%s: the callback ran out of gas with execution limit %d < commit limit %d but the transaction was committed", id, ob.LimitSeen, cr.commit), wit)
+			c40Cap.violate(m.c, "C40|retryable-out-of-gas-not-aborted|"+sigT, fmt.Sprintf("%s: the callback ran out of gas with execution limit %d < commit limit %d but the transaction was committed", id, ob.LimitSeen, cr.commit), wit)
 			return true
 		}
 		m.checkFailedTx(cr, o, commitGone, wit)
 		m.c.Inc("src_retryable_oog_aborted")
 		cr.note("aborted")
 		if final {
-			m.c.Violate("C40|abort-with-generous-gas|"+sigT, fmt.Sprintf("%s: aborted as retryable although the transaction had %d gas", id, o.GasWanted), wit)
+			c40Cap.violate(m.c, "C40|abort-with-generous-gas|"+sigT, fmt.Sprintf("%s: aborted as retryable although the transaction had %d gas", id, o.GasWanted), wit)
 		}
 		return false
 	case failing:
 		if !o.OK() {
 			if p := panickedThroughStack(o, ob); p != nil {
-				m.c.Violate("C40|source-callback-failure-aborted-tx|"+sigT, fmt.Sprintf("%s: the failing callback (limit %d, commit %d, past limit %v) aborted the transaction: %v", id, ob.LimitSeen, cr.commit, ob.PastLimit, p), wit)
+				c40Cap.violate(m.c, "C40|source-callback-failure-aborted-tx|"+sigT, fmt.Sprintf("%s: the failing callback (limit %d, commit %d, past limit %v) aborted the transaction: %v", id, ob.LimitSeen, cr.commit, ob.PastLimit, p), wit)
 				return false
 			}
 			m.checkFailedTx(cr, o, commitGone, wit)
 			if final {
 				// 10M gas: nothing but the callback's failure can have rejected the acknowledgement / timeout
-				m.c.Violate("C40|source-callback-failure-rejected-tx|"+sigT, fmt.Sprintf("%s: the acknowledgement/timeout transaction failed after the callback failed (limit %d, commit %d): %s", id, ob.LimitSeen, cr.commit, clip(o.Log)), wit)
+				c40Cap.violate(m.c, "C40|source-callback-failure-rejected-tx|"+sigT, fmt.Sprintf("%s: the acknowledgement/timeout transaction failed after the callback failed (limit %d, commit %d): %s", id, ob.LimitSeen, cr.commit, clip(o.Log)), wit)
 			}
 			cr.note("tx-failed-elsewhere")
 			return false
@@ -775,23 +805,20 @@ func (m *c40) judgeSource(cr *cellRun, lc *lifecycle, o *CBOutcome, refund bool,
 		ok := true
 		if !commitGone {
 			ok = false
-			m.c.Violate("C40|packet-not-completed-after-callback-failure|"+sigT, id+": transaction succeeded but the packet commitment is still there", wit)
+			c40Cap.violate(m.c, "C40|packet-not-completed-after-callback-failure|"+sigT, id+": transaction succeeded but the packet commitment is still there", wit)
 		}
 		if refund && lc.refundTo != nil && (pr.sender.delta() != cr.amt || pr.escrow.delta() != -cr.amt) {
 			ok = false
-			m.c.Violate("C40|refund-missing-after-callback-failure|"+sigT, fmt.Sprintf("%s: refund of %d expected, sender %+d escrow %+d", id, cr.amt, pr.sender.delta(), pr.escrow.delta()), wit)
+			c40Cap.violate(m.c, "C40|refund-missing-after-callback-failure|"+sigT, fmt.Sprintf("%s: refund of %d expected, sender %+d escrow %+d", id, cr.amt, pr.sender.delta(), pr.escrow.delta()), wit)
 		}
 		if keys != 0 || paid != 0 {
 			ok = false
 			if cr.cl.beh == BehOogAsOK {
 				// one class of witness; recorded a few times only so that it cannot crowd out other violations
 				m.c.Inc("oog_swallowed_as_success_writes_persisted")
-				if m.c.Observed["oog_swallowed_as_success_writes_persisted"] > 3 {
-					return true
-				}
-				m.c.Violate("C40|out-of-gas-callback-writes-persisted|contract-keeper-returned-nil-past-its-limit", fmt.Sprintf("%s: the callback ran out of gas (meter past its limit %d = commit limit) and the contract keeper returned nil: the callback's writes persisted (%d keys, %d coins) although the callback is reported as failed with out of gas", id, ob.LimitSeen, keys, paid), wit)
+				c40Cap.violate(m.c, "C40|out-of-gas-callback-writes-persisted|contract-keeper-returned-nil-past-its-limit", fmt.Sprintf("%s: the callback ran out of gas (meter past its limit %d = commit limit) and the contract keeper returned nil: the callback's writes persisted (%d keys, %d coins) although the callback is reported as failed with out of gas", id, ob.LimitSeen, keys, paid), wit)
 			} else {
-				m.c.Violate("C40|failed-callback-writes-persisted|"+sigT, fmt.Sprintf("%s: the failing callback's own writes persisted: %d keys, %d coins paid", id, keys, paid), wit)
+				c40Cap.violate(m.c, "C40|failed-callback-writes-persisted|"+sigT, fmt.Sprintf("%s: the failing callback's own writes persisted: %d keys, %d coins paid", id, keys, paid), wit)
 			}
 		}
 		if ok {
@@ -808,7 +835,7 @@ func (m *c40) judgeSource(cr *cellRun, lc *lifecycle, o *CBOutcome, refund bool,
 		if !o.OK() {
 			if p := panickedThroughStack(o, ob); p != nil {
 				// a well-behaved callback does not abort the transaction either
-				m.c.Violate("C40|source-callback-success-aborted-tx|"+sigT, fmt.Sprintf("%s: transaction aborted from inside the stack although the callback succeeded within its limit: %v", id, p), wit)
+				c40Cap.violate(m.c, "C40|source-callback-success-aborted-tx|"+sigT, fmt.Sprintf("%s: transaction aborted from inside the stack although the callback succeeded within its limit: %v", id, p), wit)
 				return false
 			}
 			m.checkFailedTx(cr, o, commitGone, wit)
@@ -816,17 +843,17 @@ func (m *c40) judgeSource(cr *cellRun, lc *lifecycle, o *CBOutcome, refund bool,
 			return false
 		}
 		if !commitGone {
-			m.c.Violate("C40|packet-not-completed|"+sigT, id+": transaction succeeded but the packet commitment is still there", wit)
+			c40Cap.violate(m.c, "C40|packet-not-completed|"+sigT, id+": transaction succeeded but the packet commitment is still there", wit)
 		}
 		if refund && lc.refundTo != nil && (pr.sender.delta() != cr.amt || pr.escrow.delta() != -cr.amt) {
-			m.c.Violate("C40|refund-missing|"+sigT, fmt.Sprintf("%s: refund of %d expected, sender %+d escrow %+d", id, cr.amt, pr.sender.delta(), pr.escrow.delta()), wit)
+			c40Cap.violate(m.c, "C40|refund-missing|"+sigT, fmt.Sprintf("%s: refund of %d expected, sender %+d escrow %+d", id, cr.amt, pr.sender.delta(), pr.escrow.delta()), wit)
 		}
 		wantPaid := int64(0)
 		if cr.keys%2 == 1 {
 			wantPaid = contractCoins
 		}
 		if keys != cr.keys || paid != wantPaid {
-			m.c.Violate("C40|successful-callback-writes-missing|"+sigT, fmt.Sprintf("%s: successful callback wrote %d keys / paid %d, diff shows %d / %d", id, cr.keys, wantPaid, keys, paid), wit)
+			c40Cap.violate(m.c, "C40|successful-callback-writes-missing|"+sigT, fmt.Sprintf("%s: successful callback wrote %d keys / paid %d, diff shows %d / %d", id, cr.keys, wantPaid, keys, paid), wit)
 		} else {
 			m.c.Inc("ok_callback_persisted")
 		}
@@ -838,10 +865,10 @@ func (m *c40) judgeSource(cr *cellRun, lc *lifecycle, o *CBOutcome, refund bool,
 // checkFailedTx: a failed transaction leaves nothing behind and the packet is still pending.
 func (m *c40) checkFailedTx(cr *cellRun, o *CBOutcome, commitGone bool, wit map[string]any) {
 	if len(o.Diff) != 0 {
-		m.c.Violate("C40|failed-tx-changed-state|"+cr.cl.app+"|"+cr.cl.typ, fmt.Sprintf("%s: failed transaction left a state change:%s", cr.cl.id(m.max), diffStr(o.Diff)), wit)
+		c40Cap.violate(m.c, "C40|failed-tx-changed-state|"+cr.cl.app+"|"+cr.cl.typ, fmt.Sprintf("%s: failed transaction left a state change:%s", cr.cl.id(m.max), diffStr(o.Diff)), wit)
 	}
 	if commitGone {
-		m.c.Violate("C40|failed-tx-completed-packet|"+cr.cl.app+"|"+cr.cl.typ, cr.cl.id(m.max)+": failed transaction removed the packet commitment", wit)
+		c40Cap.violate(m.c, "C40|failed-tx-completed-packet|"+cr.cl.app+"|"+cr.cl.typ, cr.cl.id(m.max)+": failed transaction removed the packet commitment", wit)
 	}
 	m.c.Inc("failed_tx_clean")
 }
@@ -855,7 +882,7 @@ func (m *c40) judgeRecv(cr *cellRun, lc *lifecycle, o *CBOutcome, final bool) bo
 	sigT := fmt.Sprintf("%s|recv|%s", cr.cl.app, cr.cl.beh)
 	if !o.OK() {
 		if len(o.Diff) != 0 {
-			m.c.Violate("C40|failed-tx-changed-state|"+cr.cl.app+"|recv", fmt.Sprintf("%s: failed transaction left a state change:%s", id, diffStr(o.Diff)), wit)
+			c40Cap.violate(m.c, "C40|failed-tx-changed-state|"+cr.cl.app+"|recv", fmt.Sprintf("%s: failed transaction left a state change:%s", id, diffStr(o.Diff)), wit)
 		}
 		if ob == nil {
 			cr.note("failed-before-contract")
@@ -866,16 +893,16 @@ func (m *c40) judgeRecv(cr *cellRun, lc *lifecycle, o *CBOutcome, final bool) bo
 			m.c.Inc("dest_retryable_oog_aborted")
 			cr.note("aborted")
 			if final {
-				m.c.Violate("C40|abort-with-generous-gas|"+sigT, fmt.Sprintf("%s: aborted as retryable although the transaction had %d gas", id, o.GasWanted), wit)
+				c40Cap.violate(m.c, "C40|abort-with-generous-gas|"+sigT, fmt.Sprintf("%s: aborted as retryable although the transaction had %d gas", id, o.GasWanted), wit)
 			}
 			return false
 		}
 		if p := panickedThroughStack(o, ob); p != nil {
-			m.c.Violate("C40|dest-callback-failure-aborted-tx|"+sigT, fmt.Sprintf("%s: the destination callback (limit %d, commit %d, past limit %v) aborted the receive instead of producing an error acknowledgement: %v", id, ob.LimitSeen, cr.commit, ob.PastLimit, p), wit)
+			c40Cap.violate(m.c, "C40|dest-callback-failure-aborted-tx|"+sigT, fmt.Sprintf("%s: the destination callback (limit %d, commit %d, past limit %v) aborted the receive instead of producing an error acknowledgement: %v", id, ob.LimitSeen, cr.commit, ob.PastLimit, p), wit)
 			return false
 		}
 		if final && (ob.PastLimit || cr.cl.beh == BehError || cr.cl.beh == BehPanic || cr.cl.beh == BehOogAsError) {
-			m.c.Violate("C40|dest-callback-failure-rejected-receive|"+sigT, fmt.Sprintf("%s: the receive transaction failed after the destination callback failed instead of writing an error acknowledgement: %s", id, clip(o.Log)), wit)
+			c40Cap.violate(m.c, "C40|dest-callback-failure-rejected-receive|"+sigT, fmt.Sprintf("%s: the receive transaction failed after the destination callback failed instead of writing an error acknowledgement: %s", id, clip(o.Log)), wit)
 		}
 		cr.note("tx-failed-elsewhere")
 		return false
@@ -898,11 +925,11 @@ func (m *c40) judgeRecv(cr *cellRun, lc *lifecycle, o *CBOutcome, final bool) bo
 		ok := true
 		if success {
 			ok = false
-			m.c.Violate("C40|dest-callback-failed-but-success-ack|"+sigT, id+": the destination callback failed but the packet was acknowledged as success", wit)
+			c40Cap.violate(m.c, "C40|dest-callback-failed-but-success-ack|"+sigT, id+": the destination callback failed but the packet was acknowledged as success", wit)
 		}
 		if len(app) != 0 || pr.credit.delta() != 0 || keys != 0 || paid != 0 {
 			ok = false
-			m.c.Violate("C40|app-state-changed-after-dest-callback-failure|"+sigT, fmt.Sprintf("%s: error acknowledgement expected with no application state change, but:%s (credited %+d)", id, diffStr(app), pr.credit.delta()), wit)
+			c40Cap.violate(m.c, "C40|app-state-changed-after-dest-callback-failure|"+sigT, fmt.Sprintf("%s: error acknowledgement expected with no application state change, but:%s (credited %+d)", id, diffStr(app), pr.credit.delta()), wit)
 		}
 		if ok {
 			m.c.Inc("dest_failure_error_ack_no_app_change")
@@ -911,7 +938,7 @@ func (m *c40) judgeRecv(cr *cellRun, lc *lifecycle, o *CBOutcome, final bool) bo
 		return true
 	}
 	if !success {
-		m.c.Violate("C40|dest-callback-ok-but-error-ack|"+sigT, id+": the destination callback succeeded within its limit but the packet was acknowledged as error", wit)
+		c40Cap.violate(m.c, "C40|dest-callback-ok-but-error-ack|"+sigT, id+": the destination callback succeeded within its limit but the packet was acknowledged as error", wit)
 		return true
 	}
 	wantPaid := int64(0)
@@ -919,10 +946,10 @@ func (m *c40) judgeRecv(cr *cellRun, lc *lifecycle, o *CBOutcome, final bool) bo
 		wantPaid = contractCoins
 	}
 	if pr.credit.delta() != lc.recvAmt {
-		m.c.Violate("C40|recv-effects-missing|"+sigT, fmt.Sprintf("%s: receiver credited %+d, expected %+d", id, pr.credit.delta(), lc.recvAmt), wit)
+		c40Cap.violate(m.c, "C40|recv-effects-missing|"+sigT, fmt.Sprintf("%s: receiver credited %+d, expected %+d", id, pr.credit.delta(), lc.recvAmt), wit)
 	}
 	if keys != cr.keys || paid != wantPaid {
-		m.c.Violate("C40|successful-callback-writes-missing|"+sigT, fmt.Sprintf("%s: successful callback wrote %d keys / paid %d, diff shows %d / %d", id, cr.keys, wantPaid, keys, paid), wit)
+		c40Cap.violate(m.c, "C40|successful-callback-writes-missing|"+sigT, fmt.Sprintf("%s: successful callback wrote %d keys / paid %d, diff shows %d / %d", id, cr.keys, wantPaid, keys, paid), wit)
 	} else {
 		m.c.Inc("ok_callback_persisted")
 	}
@@ -938,7 +965,7 @@ func (m *c40) judgeSend(cr *cellRun, lc *lifecycle, o *CBOutcome) bool {
 	wit := map[string]any{"cell": id, "tx_ok": o.OK(), "tx_log": clip(o.Log), "gas_wanted": o.GasWanted}
 	if !o.OK() {
 		if len(o.Diff) != 0 {
-			m.c.Violate("C40|failed-tx-changed-state|"+cr.cl.app+"|send", fmt.Sprintf("%s: failed transaction left a state change:%s", id, diffStr(o.Diff)), wit)
+			c40Cap.violate(m.c, "C40|failed-tx-changed-state|"+cr.cl.app+"|send", fmt.Sprintf("%s: failed transaction left a state change:%s", id, diffStr(o.Diff)), wit)
 		}
 		if ob == nil {
 			cr.note("failed-before-contract")
@@ -971,7 +998,7 @@ func (m *c40) judgeSend(cr *cellRun, lc *lifecycle, o *CBOutcome) bool {
 		wantPaid = contractCoins
 	}
 	if keys != cr.keys || paid != wantPaid {
-		m.c.Violate("C40|successful-callback-writes-missing|"+cr.cl.app+"|send", fmt.Sprintf("%s: successful callback wrote %d keys / paid %d, diff shows %d / %d", id, cr.keys, wantPaid, keys, paid), wit)
+		c40Cap.violate(m.c, "C40|successful-callback-writes-missing|"+cr.cl.app+"|send", fmt.Sprintf("%s: successful callback wrote %d keys / paid %d, diff shows %d / %d", id, cr.keys, wantPaid, keys, paid), wit)
 	} else {
 		m.c.Inc("ok_callback_persisted")
 	}
